@@ -561,6 +561,14 @@ func (o *Obligation) query(withModel bool) (string, error) {
 	}
 	if len(e.locs) > 0 {
 		b.WriteString("(assert (distinct nil_ref " + strings.Join(e.locs, " ") + "))\n")
+		// freshness: no pointer that existed at entry is the address of a local or of something allocated here
+		for _, ep := range e.entryPtrs {
+			var ne []string
+			for _, l := range e.locs {
+				ne = append(ne, "(not (= "+ep+" "+l+"))")
+			}
+			b.WriteString("(assert (and " + strings.Join(ne, " ") + "))\n")
+		}
 	}
 	n := o.NFacts
 	if n > len(e.facts) {
